@@ -150,13 +150,14 @@ Section Local2.
   Lemma api_enq1 s a e s' oa :
     api_step fx sp t s a e = Some (s', oa) -> a = QEnq1 ->
     oa = Some QEnq2 /\ queue s' = queue s /\ term s' = term s /\
-    ((exists v, In v (wsJ s) /\ wsJ s' = rem v (wsJ s)) \/ (wsJ s = [] /\ wsJ s' = [])).
+    ((exists v, In v (wsJ s) /\ wsJ s' = rem v (wsJ s)) \/ wsJ s' = []).
   Proof.
-    intros H ->. cbn in H. destruct e; try discriminate H. destruct c; try discriminate H.
-    unfold do_n1 in H. destruct w as [v|].
-    - cbn [ws] in H. destruct (mem v (wsJ s)) eqn:M; [|discriminate]. inversion H; subst. cbn. repeat split; auto.
-      left. exists v. split; auto. now apply mem_In.
-    - cbn [ws] in H. destruct (wsJ s) eqn:E; [|discriminate]. inversion H; subst. repeat split; auto.
+    intros H ->. cbn in H. destruct e; try discriminate H; destruct c; try discriminate H.
+    - unfold do_n1 in H. destruct w as [v|].
+      + cbn [ws] in H. destruct (mem v (wsJ s)) eqn:M; [|discriminate]. inversion H; subst. cbn. repeat split; auto.
+        left. exists v. split; auto. now apply mem_In.
+      + cbn [ws] in H. destruct (wsJ s) eqn:E; [|discriminate]. inversion H; subst. repeat split; auto.
+    - inversion H; subst. cbn. repeat split; auto.
   Qed.
 
   Lemma api_push s a e s' oa :
@@ -169,7 +170,7 @@ Section Local2.
   Lemma tstep_enq1 s ts e s' ts' spw :
     tstep cfg fx sp fin t s ts e = Some (s', ts', spw) -> enq1 ts = true ->
     queue s' = queue s /\ term s' = term s /\
-    ((exists v, In v (wsJ s) /\ wsJ s' = rem v (wsJ s)) \/ (wsJ s = [] /\ wsJ s' = [])).
+    ((exists v, In v (wsJ s) /\ wsJ s' = rem v (wsJ s)) \/ wsJ s' = []).
   Proof.
     intros H L. unfold enq1 in L.
     destruct ts as [| |p|tk j|tk j|tk j a r|tk j|a r| |p|a r]; cbn [tstep] in H; try discriminate L;
@@ -281,7 +282,7 @@ Proof.
     rewrite <- Q in *. clear Q.
     destruct (J4 Qne T) as [(w & P)|[(w & P1 & P2)|P]].
     + destruct (Nat.eq_dec w t) as [->|Hw]; [|left; exists w; now rewrite G].
-      destruct (tstep_enq1 _ _ _ _ _ _ _ _ _ _ _ H P) as (_ & _ & [(v & V1 & V2)|(V1 & V2)]).
+      destruct (tstep_enq1 _ _ _ _ _ _ _ _ _ _ _ H P) as (_ & _ & [(v & V1 & V2)|V2]).
       * right; left. exists v. destruct (w_in _ HW CJ v V1) as (A & _). apply slp_CJ_w5 in A.
         assert (v <> t). { intros ->. rewrite A in P. discriminate. }
         rewrite G by auto. rewrite A. split; [reflexivity|]. rewrite V2. rewrite In_rem. tauto.
